@@ -1,5 +1,6 @@
 (* C14 The persistent queue behaves as a coalescing FIFO and round-trips its data. *)
 From K Require Import Str SetM SetProofs Linq LinqSpec LinqProofs DebounceProofs.
+From K Require Import Trace Fs World Handler SyncProofs AbandonProofs QueueProofs.
 Local Open Scope Z_scope.
 
 (* path and flags come back unchanged: any flag value, any normal absolute path
@@ -54,6 +55,24 @@ Theorem C14_order : forall (now deb : Z) (q : list qent) (fuel : nat),
   ref_drain fuel now deb q = map (fun e => (qpath e, snd (fst e))) (keep_last q).
 Proof. intros. apply ref_drain_keep_last; assumption. Qed.
 Print Assumptions C14_order.
+
+(* the queue OVER SYSTEM CALLS (symlinkat / readlinkat / fstatat / unlinkat on a
+   directory of the file-system model, the code of linq.c call for call), started
+   on an empty queue directory, produces for every operation sequence and every
+   benign oracle exactly the outputs of the queue model, hence of the reference
+   FIFO; [QRel] relates the in-memory queue and the directory to the reference list *)
+Theorem C14_syscall_queue_refines :
+  forall (o : oracle) (ops : list lop) (d : str) (deb : Z) (g guess : nat) (w : world),
+  benign o -> tr_ok (w_tr w) = true -> keys_nodup (w_fs w) ->
+  d <> root_path -> lookup (w_fs w) d = Some NDir ->
+  (forall k, lookup (w_fs w) (join d (dec k)) = None) ->
+  Forall (wf_wop g) ops ->
+  exists q' w',
+    wrun (mkQ d 0 0 deb g []) ops o w =
+      (Some (q', snd (lrun (linit deb guess (w_clock w)) ops)), w') /\
+    tr_ok (w_tr w') = true.
+Proof. exact world_refines_model. Qed.
+Print Assumptions C14_syscall_queue_refines.
 
 (* non-vacuity: a concrete history with a duplicate, a restart and a flag value *)
 Example C14_example :
